@@ -155,6 +155,22 @@ class World:
                     # finishes normally with a value its converter cannot encode: the execution counts as failed
                     log.add(k="actor_raise", id=id_, attempt=attempt, actor=name, exc="TypeError(unencodable return value)")
                     return BAD_RETURNS[st.get("what", "set")]()
+                if do == "eager_on_cancel":
+                    # runs into its execution timeout and answers for the message itself while it is being cancelled
+                    try:
+                        await asyncio.sleep(st.get("hang", 30.0))
+                    except asyncio.CancelledError:
+                        log.add(k="actor_eager", id=id_, attempt=attempt, actor=name, action=st["action"])
+                        await asyncio.sleep(st.get("cleanup", 0.05))
+                        act = getattr(m, st["action"])
+                        if st["action"] in ("retry", "force_retry"):
+                            await act(timedelta(seconds=st.get("next", 3600.0)))
+                        else:
+                            await act()
+                        log.add(k="body_continued", id=id_, attempt=attempt, actor=name)
+                        raise
+                    log.add(k="actor_end", id=id_, attempt=attempt, actor=name)
+                    return None
                 if do == "hang_cleanup":
                     # runs into its execution timeout and then takes a while to unwind (awaits in its cancellation handler)
                     try:
